@@ -915,7 +915,7 @@ func corner() []*Case {
 		}
 	}
 	// ---- webhooks of other kinds; Init options
-	for _, pn := range []string{"henr", "hbogus", "hmisdeny", "hmis2", "hbadct", "hbadct2", "palg0", "palg4", "pbadalg"} {
+	for _, pn := range []string{"hnoname", "hnoname2", "hsamename", "henr", "hbogus", "hmisdeny", "hmis2", "hbadct", "hbadct2", "palg0", "palg4", "pbadalg"} {
 		for _, mt := range []string{"19", "18"} {
 			add(Case{Prov: pn, MT: mt})
 			add(Case{Prov: pn, MT: mt, HTTP: "get", HasC: true, Chal: staticSecret})
@@ -927,7 +927,7 @@ func corner() []*Case {
 	// ---- the authority with the admin database, through its life: first start (migration of the
 	// ca.json provisioners), reload, update through the admin methods, restart on the same database
 	for _, life := range []string{"mig", "reload", "update", "restart"} {
-		for _, pn := range []string{"astatic", "ahdeny", "ahmn", "apdec", "aforce", "ahssh", "abogus", "abadct", "apuripem"} {
+		for _, pn := range []string{"astatic", "ahdeny", "ahmn", "apdec", "aforce", "ahssh", "abogus", "abadct", "apuripem", "anoname", "asamename"} {
 			add(Case{Prov: pn, MT: "19", Op: "LIVE", Life: life})
 			right := staticSecret
 			if life == "update" || life == "restart" {
@@ -935,7 +935,7 @@ func corner() []*Case {
 					right = "n3w-secret"
 				}
 			}
-			if pn == "ahmn" || (pn == "ahssh" && (life == "update" || life == "restart")) {
+			if pn == "ahmn" || pn == "asamename" || (pn == "ahssh" && (life == "update" || life == "restart")) {
 				right = hookSecret
 			}
 			for _, mt := range []string{"19", "18"} {
